@@ -54,6 +54,26 @@ def _func_tokens(node, intern, out):
         _node_tokens(st, intern, out)
 
 
+def children_in_visit_order(node):
+    """children of a node the walker has no method of its own for, in the order it visits them:
+    generic_visit (_fields order) -- except comprehensions, which the walker reads in evaluation
+    order since repair 562a505: the for clauses first (each: iterable, target, conditions), then
+    the element expression(s)"""
+    if isinstance(node, (ast.ListComp, ast.SetComp, ast.GeneratorExp)):
+        return list(node.generators) + [node.elt]
+    if isinstance(node, ast.DictComp):
+        return list(node.generators) + [node.key, node.value]
+    if isinstance(node, ast.comprehension):
+        return [node.iter, node.target] + list(node.ifs)
+    children = []
+    for _field, value in ast.iter_fields(node):
+        if isinstance(value, list):
+            children.extend(v for v in value if isinstance(v, ast.AST))
+        elif isinstance(value, ast.AST):
+            children.append(value)
+    return children
+
+
 def _node_tokens(node, intern, out):
     if isinstance(node, ast.Name):
         out.append('N')
@@ -87,13 +107,7 @@ def _node_tokens(node, intern, out):
         out.append(str(len(node.names)))
         out.extend(str(intern(n)) for n in node.names)
     else:
-        # generic_visit: children in _fields order
-        children = []
-        for _field, value in ast.iter_fields(node):
-            if isinstance(value, list):
-                children.extend(v for v in value if isinstance(v, ast.AST))
-            elif isinstance(value, ast.AST):
-                children.append(value)
+        children = children_in_visit_order(node)
         out.append('O')
         out.append(str(len(children)))
         for c in children:
